@@ -23,6 +23,8 @@ var Root = func() string {
 	return "/verif"
 }()
 
+const distinctCap = 400000
+
 // Finding is one entry of known-findings.json.
 type Finding struct {
 	Property    string `json:"property"`
@@ -134,7 +136,12 @@ func (c *Ctx) Distinct(set, member string) {
 		m = map[string]struct{}{}
 		c.distinct[set] = m
 	}
-	m[member] = struct{}{}
+	// bounded memory: beyond the cap the set size is a lower bound (recorded in the evidence)
+	if len(m) < distinctCap {
+		m[member] = struct{}{}
+	} else if _, ok := m[member]; !ok {
+		c.counts["distinct_set_capped:"+set]++
+	}
 	c.mu.Unlock()
 }
 
